@@ -215,6 +215,7 @@ def run(chk):
                         "ENGINE.get_parsed(def_id).ty is a lookup table of callee types"]
     chk.not_covered += ["with-block contexts (modifier_checker) feed the same check_cfg_unitary with ModifiedBlock.flags (C25)", "loops inside with-dagger blocks"]
     qubit_finder(chk)
+    decorator_flags(chk)
     chk.use_engine(e)
 
 
@@ -330,6 +331,76 @@ try:
     ty = ENGINE.get_checked(m.use.id).ty.inputs[0].ty
     got = contain_qubit_ty(ty); want = "qubit" in I["ty"]
     out = {"violates": got != want, "type": str(ty), "contain_qubit_ty": got, "required": want}
+except Exception as ex:
+    out = {"violates": False, "error": repr(ex)[:300]}
+shutil.rmtree(d, ignore_errors=True)
+print(json.dumps(out))
+'''
+
+
+def decorator_flags(chk):
+    """_parse_kwargs (guppylang/decorator.py): the unitary / control / dagger / power keywords of
+    @guppy(...), @guppy.declare(...), @guppy.comptime(...) become the function's UnitaryFlags: a flag
+    is set exactly when its keyword is given a TRUE value (absent and False both leave it unset); the
+    four keywords are consumed, any other keyword is a TypeError.  All 3^4 keyword combinations."""
+    import itertools
+    D = "guppylang.decorator"
+    e = mk_engine(chk)
+    e.func_info(D, "_parse_kwargs")
+    m = e.module(D)
+    NAMES = ("unitary", "control", "dagger", "power")
+    BIT = {"unitary": "Unitary", "control": "Control", "dagger": "Dagger", "power": "Power"}
+    n = 0
+    for combo in itertools.product(("absent", True, False), repeat=4):
+        for extra in ((), ("frobnicate",)) if combo in (("absent",) * 4, (True, False, "absent", True)) else ((),):
+            def t(it, combo=combo, extra=extra):
+                kw = {k: v for k, v in zip(NAMES, combo) if v != "absent"}
+                for x in extra:
+                    kw[x] = True
+                r = it.call(it.lookup_global(m, "_parse_kwargs"), [kw], {})
+                UF = it.lookup_global(e.module("guppylang_internals.tys.ty"), "UnitaryFlags")
+                want = 0
+                for k, v in zip(NAMES, combo):
+                    if v is True:
+                        want |= it.getattr(UF, BIT[k]).value
+                return r, want, kw
+            paths = e.explore(t)
+
+            def post(p, extra=extra):
+                if extra:
+                    return z3.BoolVal(p.kind == "raise" and p.raised(e, "TypeError"))
+                if p.kind != "return":
+                    return z3.BoolVal(False)
+                r, want, kw = p.value
+                return z3.BoolVal(getattr(r, "value", None) == want and kw == {})
+            tag = ",".join(f"{k}={v}" for k, v in zip(NAMES, combo) if v != "absent") or "no-keywords"
+            chk.prove_paths(f"_parse_kwargs[{tag}{'+unknown-keyword' if extra else ''}]:flag-set<=>keyword-true;keywords-consumed;unknown-keyword->TypeError", paths, post, func=f"{D}:_parse_kwargs",
+                            replay=lambda m_: {"script": REPLAY_KWARGS, "input": {}})
+            n += 1
+    chk.record("_parse_kwargs:combinations-explored", n >= 81, str(n), kind="reachability")
+    chk.use_engine(e)
+
+
+REPLAY_KWARGS = r'''
+import tempfile, importlib.util, os, sys, shutil
+from guppylang_internals.error import GuppyError
+src = """from guppylang import guppy
+from guppylang.std.quantum import qubit
+@guppy.declare(dagger=False)
+def plain(q: qubit) -> None: ...
+@guppy(dagger=True)
+def ctx(q: qubit) -> None:
+    plain(q)
+"""
+d = tempfile.mkdtemp(dir=os.environ.get("TMPDIR", "/var/tmp")); fn = os.path.join(d, "replay_c24k.py"); open(fn, "w").write(src)
+spec = importlib.util.spec_from_file_location("replay_c24k", fn); m = importlib.util.module_from_spec(spec); sys.modules["replay_c24k"] = m
+try:
+    spec.loader.exec_module(m)
+    try:
+        m.ctx.check(); accepted = True
+    except GuppyError:
+        accepted = False
+    out = {"violates": accepted, "accepted": accepted, "required": "rejected: `plain` is declared dagger=False and is called with a qubit from a dagger context"}
 except Exception as ex:
     out = {"violates": False, "error": repr(ex)[:300]}
 shutil.rmtree(d, ignore_errors=True)
